@@ -440,7 +440,7 @@ impl Format for Mpq {
                     rec.note("mpq_bytes_read", d.len() as u64);
                 }
             }
-            for e in listed.iter().take(40) {
+            for e in listed.iter().take(12) {
                 if let Some((hi, bi)) = e.table_indices {
                     let _ = rec.call("Archive::read_file_by_indices", || a.read_file_by_indices(hi, bi));
                 }
@@ -467,7 +467,7 @@ impl Format for Mpq {
             }
             if rec.call("PatchChain::add_archive", || chain.add_archive(&path, 100)).is_some() {
                 let _ = rec.call("PatchChain::list", || chain.list());
-                for n in names.iter().take(12) {
+                for n in names.iter().take(5) {
                     let _ = rec.call("PatchChain::read_file", || chain.read_file(n));
                 }
             }
@@ -475,9 +475,10 @@ impl Format for Mpq {
         // the modification API parses the archive on open as well
         if let Some(mut m) = rec.call("MutableArchive::open", || MutableArchive::open(&path)) {
             let _ = rec.call("MutableArchive::list", || m.list());
-            for n in names.iter().take(4) {
+            for n in names.iter().take(2) {
                 let _ = rec.call("MutableArchive::read_file", || m.read_file(n));
             }
+            rec.call_plain("MutableArchive::drop", || drop(m));
         }
         let _ = std::fs::remove_file(&path);
     }
